@@ -82,7 +82,7 @@ class Part:
 
 
 COMMON_TRUSTED = [
-    'rustc, Kani 0.68 (MIR->goto translation), CBMC 6.11 + CaDiCaL, Verus 0.2026.09.13 + Z3',
+    'rustc, Kani 0.68 (MIR->goto translation), CBMC 6.11 + CaDiCaL / kissat, Verus 0.2026.09.13 + Z3',
     'spec/ebpf_sem.rs says what the property statements say (review)',
     'extraction rewrites of DESIGN section 4 (get_insn -> env.fetch, raw-pointer primitives -> *_v over an abstract byte memory, &[u8] -> &Region in check_mem)',
     'shadows: Region for slices (a Rust slice does not wrap the address space), one-member view of the allowed set (Iterator::any = exists), abstract HashMap returning the harness-chosen answer for the single lookup of a step, format! evaluated for effect only',
